@@ -66,6 +66,7 @@ MUTANTS = [
     m("C05-misc-no-error-check", "C05", "C05.R5", B, "                self._raise_errors(line, cmd_name)\n                results.append(line)", "                results.append(line)"),
     # appending to the local list before the error test changes nothing a caller can observe (the list dies with the raise)
     m("C05-silent-append-before-check", "C05", "", B, "                self._raise_errors(line, cmd_name)\n                results.append(line)", "                results.append(line)\n                self._raise_errors(line, cmd_name)", kind="silent"),
+    m("C05-touch-ignores-default-noreply", "C05", "C05.R4", B, "        if noreply is None:\n            noreply = self.default_noreply\n        key = self.check_key(key, self.key_prefix)\n        expire_bytes = self._check_integer(expire, \"expire\")", "        if noreply is None:\n            noreply = False\n        key = self.check_key(key, self.key_prefix)\n        expire_bytes = self._check_integer(expire, \"expire\")"),
     m("C05-store-noreply-false", "C05", "C05.R4", B, "                return {k: True for k in keys}", "                return {k: False for k in keys}"),
     m("C05-store-keyed-by-wire-key", "C05", "C05.R3", B, "            keys.append(key)\n\n            key = self.check_key(key, self.key_prefix)", "            key = self.check_key(key, self.key_prefix)\n            keys.append(key)"),
     m("C05-silent-delete-ne", "C05", "", B, 'return results[0] == b"DELETED"', 'return results[0] != b"NOT_FOUND"', kind="silent"),
